@@ -723,7 +723,7 @@ def run(p):
             aimed = AIMED[fi % len(AIMED)]
             s = random_sol(rng, nsites=nsites, vel=(fi % 2 == 0), tri='LU'[(fi // 2) % 2], aimed=aimed)
             s.label = 'file%d(sites=%d,solns=%d,vel=%s,tri=%s,%s,%s)' % (fi, len(s.sites), len(s.solns), s.vel, s.tri, s.mode, aimed)
-            text = render_input(s, rng if fi % 4 else None)
+            text = render_input(s, rng if fi % 5 else None)
             p.stats.add('files')
             p.stats.add('files:nparam<=12' if s.nparam() <= 12 else 'files:nparam>12')
             # ---- remove_stns: every subset (small files) x clocks
